@@ -47,7 +47,7 @@ class EEMSRead(Command):
             variable = dataset[variable_name]
             data = variable[:]
 
-        if self.get_argument_value("DataType", "Float") in ("Positive Integer", "Positive Float") and data.min() < 0:
+        if self.get_argument_value("DataType", "Float") in ("Positive Integer", "Positive Float") and (data < 0).any():
             raise InvalidPositiveData(path, kwargs["DataType"], lineno=self.lineno)
 
         if numpy.issubdtype(data.dtype, numpy.float64) and data_type in (
@@ -66,7 +66,7 @@ class EEMSRead(Command):
         if self.get_argument_value("DataType", "Float") == "Fuzzy":
             fuzzy_pad = 0.01 * (FUZZY_MAX - FUZZY_MIN)
 
-            if data.max() > FUZZY_MAX + fuzzy_pad or data.min() < FUZZY_MIN - fuzzy_pad:
+            if (data > FUZZY_MAX + fuzzy_pad).any() or (data < FUZZY_MIN - fuzzy_pad).any():
                 raise InvalidFuzzyData(path, lineno=self.lineno)
 
             insure_fuzzy(result, FUZZY_MIN, FUZZY_MAX)
